@@ -6,7 +6,6 @@ From PM Require Import Semiring Poly Rel Analysis Calculus Rel_sem Poly_dom An_s
 From PM Require DeltaGraph.
 Import ListNotations.
 Open Scope list_scope.
-Set Default Timeout 30.
 
 Definition rec_dom (d : dgraph) : Prop :=
   Forall (Forall (fun e : delta => fst e < 3)) (DeltaGraph.dg_recorded d).
@@ -167,15 +166,26 @@ Proof.
   - eapply (seq_compound_dom _ IH); [exact H | apply rel_dom_empty | exact Hd].
 Qed.
 
+Lemma cmds_cons s t stop index acc di d :
+  cmds (s :: t) stop index acc di d =
+  rbind (compute depth_fuel index s d) (fun r =>
+    let di' := di || cr_exit r in
+    if stop && di' then ROk (di', cr_index r, acc, cr_dg r)
+    else cmds t stop (cr_index r) (rel_comp acc (cr_rel r)) di' (cr_dg r)).
+Proof. reflexivity. Qed.
+
 Theorem cmds_dom l : forall stop index acc di d di' index' r' d',
   cmds l stop index acc di d = ROk (di', index', r', d') ->
   rel_dom acc -> rec_dom d -> rel_dom r' /\ rec_dom d'.
 Proof.
-  induction l as [|s t IH]; intros stop index acc di d di' index' r' d' H Ha Hd; cbn [cmds] in H.
-  - injection H as _ _ <- <-. split; assumption.
-  - unfold rbind in H. destruct (compute depth_fuel index s d) as [r|] eqn:E; [|discriminate].
-    destruct (compute_dom _ _ _ _ _ E Hd) as [A B]. cbv zeta in H.
-    destruct (stop && (di || cr_exit r)).
+  induction l as [|s t IH]; intros stop index acc di d di' index' r' d' H Ha Hd.
+  - cbn [cmds] in H. injection H as _ _ <- <-. split; assumption.
+  - rewrite cmds_cons in H.
+    remember (compute depth_fuel index s d) as c eqn:E. symmetry in E.
+    destruct c as [r|]; [|discriminate]. cbn [rbind] in H.
+    destruct (compute_dom _ _ _ _ _ E Hd) as [A B].
+    remember (di || cr_exit r) as di0 eqn:Edi. clear Edi. cbv zeta in H.
+    destruct (stop && di0).
     + injection H as _ _ <- <-. split; assumption.
     + eapply IH; [exact H | apply rel_dom_comp; assumption | exact B].
 Qed.
